@@ -1,5 +1,6 @@
 """C03: snps reports exactly the certainly-different sites."""
 import common as cm
+import cmdlayer
 import gen
 
 IMPORTS = ["Base", "Harness", "Check_C03"]
@@ -65,3 +66,16 @@ def generate(ctx):
         cases.append(make_case(cid, hard, refb, alnb, {"kind": "malformed:" + kind, "nontrivial": False}))
         cid += 1
     return cases
+
+
+def extra(ctx, obl, cases, obs):
+    """the command through the built binary (cmd/*.go): binary = library entry point, and the option handling the command does itself"""
+    n = 2 if ctx.tier == "quick" else 12
+    _cmd_state["binary_runs"] = cmdlayer.snps_layer(ctx, n)
+
+
+_cmd_state = {}
+
+
+def coverage_extra(ctx):
+    return {"binary_runs": _cmd_state.get("binary_runs", 0)}
